@@ -32,6 +32,7 @@ FIXED = {
     "C18:run-parallel-reader-gone": "f65ff11",
     "C17:str-repeat-overflow-wraps": "a2e5b92",
     "C17:flag-name-panics": "a2537fc",
+    "C17:nil-for-list-or-map-parameter": "ec711ac",
     "C36:del-in-link-destination-written-bare": "562dd02",
     "C18:only-values-stops-draining": "fcd24e6",
     "C20:run-parallel-go-fn-error-panics": "58ec5ef",
